@@ -29,8 +29,8 @@ REPO = Path(os.environ.get('VERIF_REPO', '/repo'))   # the tree under test (defa
 COQ = VERIF / 'coq'
 THEORIES = COQ / 'theories'
 BUILD = VERIF / 'build'
-EVIDENCE = VERIF / 'evidence'
-REPLAYS = VERIF / 'replays'
+EVIDENCE = Path(os.environ.get('VERIF_EVIDENCE_DIR', str(VERIF / 'evidence')))   # mutant runs write elsewhere
+REPLAYS = Path(os.environ.get('VERIF_REPLAYS_DIR', str(VERIF / 'replays')))
 KNOWN_FINDINGS = VERIF / 'known_findings.json'
 
 FORBIDDEN = re.compile(
